@@ -18,7 +18,7 @@ LEVEL = "exploration"
 RULE = (
     "wraps: all spec tuples over a 7-spec alphabet for 1-3 parameters (thorough: 4 with a 5-spec alphabet) without dangling references x all trailing-default patterns x all positional/keyword/omitted call forms x "
     "all argument-value tuples over {2 m, 300 cm, 5 s, bare 7} (1-2 parameters: plus the dimensionless spec '' / ureg.dimensionless and the scaled dimensionless value 50 %) x strict {True, False}; return specs {None, 'meter', '=A', ('meter', None), ['=A', 'second']} on every 2-parameter spec tuple; declared-count "
-    "mismatches; check: all dimension-spec tuples over {None, '[length]', '[time]', '[length]/[time]', 'meter'} for 1-3 parameters x the same call forms and values. non-trivial = distinct (specs, defaults, call form, values, strict)"
+    "mismatches; ndarray (float / int) and scalar arguments with an ndarray default, the SAME objects used for five calls in a row (hand-over each time, arguments and defaults unchanged); check: all dimension-spec tuples over {None, '[length]', '[time]', '[length]/[time]', 'meter'} for 1-3 parameters x the same call forms and values. non-trivial = distinct (specs, defaults, call form, values, strict)"
 )
 ASSUMPTIONS = [
     "R7: binding like inspect.Signature.bind + apply_defaults; None passes the argument through untouched; a unit spec converts a Quantity (DimensionalityError if incompatible), refuses a bare number when strict "
@@ -253,6 +253,64 @@ def run_wraps(acc, n, block, nblocks, tier):
     acc.sample({"decorator": "wraps", "specs": ["=A", "=A**2", "meter"], "values": ["300 centimeter", "2 meter", "7"], "call": "f(p0, p2=..., p1=...)", "strict": False})
 
 
+def run_wraps_arrays(acc):
+    """ndarray arguments, and the SAME argument and default objects used for several calls in a row: every call hands
+    over the declared conversion, and no call changes the caller's quantities, their arrays, or the defaults"""
+    import numpy as np
+
+    ureg = regs.default("float")
+    Q = ureg.Quantity
+    # (spec for p0, spec for p1, unit of the p0 argument, unit of the p1 argument / default, expected factor p0, expected factor p1 as a function of nothing)
+    cases = [
+        ("meter", "second", "kilometer", "millisecond", 1000.0, 1e-3), ("centimeter", None, "meter", "second", 100.0, None), ("=A", "=A", "kilometer", "meter", 1.0, 1e-3),
+        ("=A", "=A**2", "meter", "centimeter**2", 1.0, 1e-4), ("meter", "=B", "inch", "second", 0.0254, 1.0), ("", "meter", "percent", "kilometer", 0.01, 1000.0), (None, "meter", "kilometer", "centimeter", None, 0.01),
+    ]
+    for dtype_name, mkarr in (("float-array", lambda v: np.array(v, dtype=float)), ("int-array", lambda v: np.array(v, dtype=int)), ("float-scalar", lambda v: float(v[0]))):
+        for s0, s1, u0, u1, f0, f1 in cases:
+            for strict in (True, False):
+                record = []
+                default = Q(mkarr([3, 4]), u1)
+                ns = {"record": record, "D": default}
+                exec("def f(p0, p1=D):\n    record.append((p0, p1))\n    return None\n", ns)
+                o = call(lambda: ureg.wraps(None, (s0, s1), strict=strict)(ns["f"]))
+                if o[0] != "ok":
+                    acc.violation(["wraps", "decoration", "raises-on-valid-specs", o[1]], {"specs": [s0, s1]}, "a wrapper", o[1])
+                    continue
+                w = o[1]
+                a0, a1 = Q(mkarr([1, 2]), u0), Q(mkarr([5, 6]), u1)
+
+                def snap(q):
+                    return (np.asarray(q.magnitude).tobytes(), str(np.asarray(q.magnitude).dtype), dict(q._units))
+
+                s_a0, s_a1, s_d = snap(a0), snap(a1), snap(default)
+                for callno, form in enumerate(("both", "both", "default", "default", "both")):
+                    del record[:]
+                    acc.ev()
+                    acc.nt(("wraps-array", dtype_name, s0, s1, strict, callno))
+                    case = {"specs": [str(s0), str(s1)], "argument_units": [u0, u1], "magnitudes": dtype_name, "strict": strict, "call_number": callno + 1, "form": form}
+                    o = call(lambda: w(a0, a1) if form == "both" else w(a0))
+                    if o[0] != "ok" or len(record) != 1:
+                        acc.violation(["wraps", "call", "raises-on-valid-arguments", o[1] if o[0] != "ok" else "not-called"], case, "call goes through", repr(o)[:100])
+                        break
+                    got0, got1 = record[0]
+                    src1 = a1 if form == "both" else default
+                    for idx, (got, src, spec, fac) in enumerate(((got0, a0, s0, f0), (got1, src1, s1, f1))):
+                        base = np.asarray([1, 2] if idx == 0 else ([5, 6] if form == "both" else [3, 4]), dtype=float)
+                        if dtype_name == "float-scalar":
+                            base = base[:1]
+                        if spec is None:
+                            ok = hasattr(got, "_units") and dict(got._units) == dict(src._units) and np.allclose(np.atleast_1d(np.asarray(got.magnitude, dtype=float)), base)
+                        else:
+                            ok = not hasattr(got, "_units") and np.allclose(np.atleast_1d(np.asarray(got, dtype=float)), base * fac, rtol=1e-12)
+                        if not ok:
+                            acc.violation(["wraps", "hand-over", "argument-received-differs-from-declared-conversion", "repeated-call" if callno else "first-call"], dict(case, parameter=idx), (base * fac).tolist() if fac is not None else "the quantity itself", repr(got)[:80])
+                    if snap(a0) != s_a0 or snap(a1) != s_a1 or snap(default) != s_d:
+                        acc.violation(["wraps", "hand-over", "callers-argument-or-default-modified", dtype_name], case, "arguments and defaults unchanged", {"p0": snap(a0) != s_a0, "p1": snap(a1) != s_a1, "default": snap(default) != s_d})
+                        break
+    acc.outcome("wraps-arrays")
+    acc.sample({"decorator": "wraps", "clause": "repeated calls with the same ndarray arguments and an ndarray default", "specs": ["meter", "second"], "arguments": ["[1, 2] km", "[5, 6] ms"]})
+
+
 RET_SPECS = [None, "meter", "=A", ("meter", None), ["=A", "second"]]
 
 
@@ -385,7 +443,7 @@ def shards(tier, seed):
     out += [("wraps", 3, b, 12) for b in range(12)]
     if tier == "thorough":
         out += [("wraps", 4, b, 16) for b in range(16)]
-    out += [("returns",), ("check", 1), ("check", 2), ("check", 3)]
+    out += [("returns",), ("check", 1), ("check", 2), ("check", 3), ("arrays",)]
     return out
 
 
@@ -395,6 +453,8 @@ def run_shard(acc, shard, tier, seed):
         run_wraps(acc, shard[1], shard[2], shard[3], tier)
     elif k == "returns":
         run_returns(acc)
+    elif k == "arrays":
+        run_wraps_arrays(acc)
     elif k == "check":
         run_check(acc, shard[1])
     else:
@@ -410,6 +470,8 @@ def replay(rec):
         run_returns(acc)
     elif site[1] in ("return", "decoration") and "ret" in case or "parameters" in case:
         run_returns(acc)
+    elif "magnitudes" in case:
+        run_wraps_arrays(acc)
     else:
         n = len(case.get("specs", [1]))
         run_wraps(acc, n, 0, 1, rec.get("tier", "quick"))
